@@ -88,3 +88,13 @@ package counts
 
 //@ property C05: NewCount32 (Count32).ToUint64 (Count32).Plus (*Count32).Increment NewCount64 (Count64).ToUint64 (Count64).Plus (*Count64).Increment lemma/plus32_comm lemma/plus32_assoc lemma/plus64_comm lemma/plus64_assoc
 //@ property C02: (*Count32).AdjustMaxIfNecessary (*Count32).AdjustMaxIfPossible (*Count64).AdjustMaxIfNecessary (*Count64).AdjustMaxIfPossible lemma/umax32_comm lemma/umax32_assoc lemma/umax32_idem lemma/umax64_comm lemma/umax64_assoc lemma/umax64_idem
+
+// ---------------------------------------------------------------- Humanable (interface contract)
+// hval/hovf: the numeric value and the overflow flag of a boxed counter.
+//@ spec hval(v Iface) uint64
+//@ spec hovf(v Iface) bool
+//@ axiom hval_count32 [definition]: forall v Iface :: dyntype(v, "counts.Count32") ==> hval(v) == uint64(unbox(v, "counts.Count32")) && hovf(v) == (unbox(v, "counts.Count32") == 4294967295)
+//@ axiom hval_count64 [definition]: forall v Iface :: dyntype(v, "counts.Count64") ==> hval(v) == uint64(unbox(v, "counts.Count64")) && hovf(v) == (unbox(v, "counts.Count64") == 18446744073709551615)
+//@ iface Humanable.ToUint64
+//@   pure
+//@   ensures result0 == hval(self) && result1 == hovf(self)
